@@ -36,7 +36,7 @@ func checkC03(r *Run) {
 			atoms := P.Guards(ret, 2)
 			r.requireAtoms("C03-R1", key, ret, atoms, []req{
 				{"memo-ok", `^isnil\(x/auth\.ValidateMemo\(param:stdTx, param:params\)\)$`},
-				{"memo-bound", `^!\(param:params\.MaxMemoCharacters < len\(.*GetMemo\(param:stdTx\)\)\)$`},
+				{"memo-bound", `^!\(param:params\.MaxMemoCharacters < len\((?:.*GetMemo\(param:stdTx\)|param:stdTx\.Memo)\)\)$`},
 				{"not-duplicate", `^!isnil\(.*rpc/client\.\w+\)\.Tx\(.*\(github\.com/tendermint/tendermint/types\.Tx\)\.Hash\(param:txBz\).*\)#1\)$`},
 				{"signbytes-ok", `^isnil\(x/auth\.GetSignBytes\(types\.Ctx\.ChainID\(param:ctx\), param:stdTx\)#1\)$`},
 				{"fee>=expected", `^\(types\.Coins\)\.IsAllGTE\(param:stdTx\.Fee, types\.NewCoins\(list\(types\.NewCoin\("upokt", \(x/auth/types\.FeeMultipliers\)\.GetFee\(\(x/auth/keeper\.Keeper\)\.GetParams\(param:k, param:ctx\)\.FeeMultiplier, param:stdTx\.Msg\)\)\)\)\)$`},
@@ -55,7 +55,7 @@ func checkC03(r *Run) {
 			// multisig keys additionally pass the depth check
 			r.requireCut("C03-R1", key, nil, ret, "multisig=>depth-check",
 				`^!.*\.\(crypto\.PublicKeyMultiSig\)#1$`,
-				`^x/auth\.ValidateSignatureDepth\(param:params\.TxSigLimit, .*\.\(crypto\.PublicKeyMultiSig\)#0\)$`)
+				`^x/auth\.ValidateSignatureDepth\(param:params\.TxSigLimit, .*\.\(crypto\.PublicKeyMultiSig\)\)$`)
 		}
 		// the key that is verified has exactly the two vetted sources
 		for _, c := range CallsIn(vt, "crypto.PublicKey.VerifyBytes") {
@@ -142,8 +142,8 @@ func checkC03(r *Run) {
 			r.requireAtoms("C03-R3", "ante/continue-return", ret, atoms, []req{
 				{"is-StdTx", `^param:tx\.\(x/auth/types\.StdTx\)#1$`},
 				{"ValidateBasic-ok", `^isnil\(types\.Tx\.ValidateBasic\(param:tx\)\)$`},
-				{"ValidateTransaction-ok", `^isnil\(x/auth\.ValidateTransaction\(param:ctx, free:ak, param:tx\.\(x/auth/types\.StdTx\)#0, \(x/auth/keeper\.Keeper\)\.GetParams\(free:ak, param:ctx\), param:tmNode, param:txBz, param:simulate\)\)$`},
-				{"DeductFees-ok", `^isnil\(x/auth\.DeductFees\(free:ak, param:ctx, param:tx\.\(x/auth/types\.StdTx\)#0\)\)$`},
+				{"ValidateTransaction-ok", `^isnil\(x/auth\.ValidateTransaction\(param:ctx, free:ak, param:tx\.\(x/auth/types\.StdTx\), \(x/auth/keeper\.Keeper\)\.GetParams\(free:ak, param:ctx\), param:tmNode, param:txBz, param:simulate\)\)$`},
+				{"DeductFees-ok", `^isnil\(x/auth\.DeductFees\(free:ak, param:ctx, param:tx\.\(x/auth/types\.StdTx\)\)\)$`},
 			})
 		}
 		if n == 0 {
